@@ -79,9 +79,11 @@ CLAIMS = {
                  "that sum (with the inductive lemma sum of 0/1 weights > 0 iff some member has weight 1); project gives every person "
                  "the value of its group (zero outside the role); the members_position loop (invariant with a ghost per-group "
                  "counter) gives each person the number of earlier members of its group, so positions enumerate each group 0,1,2..; "
-                 "chained projectors apply their transforms innermost first."),
+                 "value_from_person gives every group the value of the member holding a unique role, in any storage order (lemma: "
+                 "two increasing enumerations of one set coincide, applied by a ghost statement); a chain of projectors of any "
+                 "length applies each projector's transform, innermost first (recursive call under its own contract)."),
         "note": ("NOT covered in this version (listed under not_decided, no stand-in is counted as proof): reduce / min / max / all, "
-                 "value_nth_person, value_from_person and get_rank, and the shortcut resolution of projectors. numpy enters through "
+                 "value_nth_person and get_rank, and the shortcut resolution of projectors. numpy enters through "
                  "assumed contracts validated against numpy on every run. One genuine defect (trailing empty groups dropped) was "
                  "repaired by a fix: commit."),
         "technique": "contract-based deductive verification (reduction nodes compared pointwise, loop invariant with ghost counter + SMT)",
